@@ -10,6 +10,8 @@ WORK = os.path.join(ROOT, 'work')
 REPLAYS = os.path.join(ROOT, 'replays')
 HARNESS = os.path.join(ROOT, 'harness')
 GUARD_RUSTFLAGS = '--cfg vm_memory_verif'
+# the tree under test; only mutation self-tests override it (VERIF_REPO=<scratch copy of /repo>)
+REPO = os.environ.get('VERIF_REPO', '/repo')
 
 FORBIDDEN = re.compile(r'\b(Admitted|admit|Axiom|Axioms|Parameter|Parameters|Conjecture|Conjectures)\b'
                        r'|Unset\s+Guard|bypass_check|type-in-type|impredicative-set|Admit\s+Obligations'
@@ -212,7 +214,9 @@ def harness_exe(build):
 def build_harness(build):
     xen = build.startswith('xen-')
     rel = build.endswith('release')
-    shutil.copy('/repo/Cargo.lock', os.path.join(HARNESS, 'Cargo.lock'))
+    shutil.copy(os.path.join(REPO, 'Cargo.lock'), os.path.join(HARNESS, 'Cargo.lock'))
+    toml = open(os.path.join(HARNESS, 'Cargo.toml.in')).read().replace('@REPO@', REPO)
+    glue.write_if_changed(os.path.join(HARNESS, 'Cargo.toml'), toml)
     cmd = ['cargo', 'build', '--offline', '--quiet']
     if rel:
         cmd.append('--release')
